@@ -40,31 +40,22 @@ def _native_sets():
         _core._PATCH_REGISTRATIONS.pop(entity, None)
 
 
-def _no_constructor_enforcement():
-    """CrossHair routes every class instantiation made by traced code through
-    enforce.manual_constructor (so that contracts on __new__/__init__ of classes carrying PEP316
-    invariants are enforced). No class of pyformlang, networkx or this harness carries a contract, and
-    the intersection builds hundreds of rule objects per path (measured: 45 % of the time of a path), so
-    instantiation is left to the interpreter here. Function/method contract enforcement is untouched."""
+def _no_subcontract_enforcement():
+    """CrossHair's EnforcedConditions tracer intercepts EVERY call made by traced code to look for a
+    PEP316 contract on the callee (and routes every class instantiation through
+    enforce.manual_constructor). The only contract in this analysis is the harness function's own, which
+    CrossHair's attempt_call checks itself; pyformlang, networkx and the helpers carry none. Measured on
+    c17_inter: 0.336 s of library time per path with the tracer, 0.011 s without (same paths, same
+    verdicts), so the tracer's hook is neutralised in this property's worker processes."""
     try:
         from crosshair import enforce as _enforce
-    except Exception:
+    except Exception:  # replay without CrossHair
         return
-    orig = _enforce.EnforcedConditions.trace_call
-    if getattr(orig, "_c17_patched", False):
-        return
-
-    def trace_call(self, frame, fn, binding_target):
-        if isinstance(fn, type):
-            return None
-        return orig(self, frame, fn, binding_target)
-
-    trace_call._c17_patched = True
-    _enforce.EnforcedConditions.trace_call = trace_call
+    _enforce.EnforcedConditions.trace_call = lambda self, frame, fn, binding_target: None
 
 
 _native_sets()
-_no_constructor_enforcement()
+_no_subcontract_enforcement()
 
 from pyformlang.indexed_grammar import (Rules, IndexedGrammar, EndRule, ProductionRule,   # noqa: E402
                                         ConsumptionRule, DuplicationRule)
